@@ -492,6 +492,7 @@ def run(repo, rep, tier):
               "value, lineno and offset on every path (the fallback "
               "expression may read any of them)",
               construct="error-info-complete", where=L.where(ei))
+    error_variable_scope(repo, rep)
     # ... and line / column are the position's items as they are: lines count
     # from 1 but columns from 0, so a truth test or arithmetic on them loses
     # a legitimate value
@@ -510,6 +511,38 @@ def run(repo, rep, tier):
               "got %s)" % got, construct="error-position-verbatim",
               where=L.where(ei))
     L.state_rule(repo, rep)
+
+
+def error_variable_scope(repo, rep, rule="R13.4"):
+    """the handler's 'error' variable is a local of the fallback: its
+    previous value is saved before the assignment and put back (or the name
+    deleted) after the fallback -- by the same pair of fragments that
+    brackets tal:define names (C05 owns their shape)"""
+    q = "chameleon.compiler.Compiler.visit_OnError"
+    f = repo.func(q)
+    res = L.emission(repo, q)
+    lin = L.Lin(res.emission)
+    enters, leaves = L.brackets(lin)
+    fb = lin.index(L.is_child("node.fallback"))
+    assign = [i for i, r in enumerate(lin.rows)
+              if isinstance(r[0], A.Frag) and "econtext[key] = cls(" in
+              str(r[0]).replace("KEY", "key")]
+    if fb < 0 or not assign:
+        raise AnalysisError("visit_OnError: fallback / error assignment "
+                            "not found in the emission")
+    named = [e for e in enters if "node.name" in str(e["key"])]
+    ok = bool(named) and all(
+        e["i"] < assign[0] and any(
+            l["backup"] == e["backup"] and l["key"] == e["key"]
+            and l["i"] > fb and l["marker"] == e["marker"] for l in leaves)
+        for e in named)
+    rep.check(ok, rule, q, "the 'error' variable ends with the fallback: "
+              "saved before it is assigned, restored after the fallback "
+              "(an outer variable of that name is not clobbered)",
+              construct="error-variable-scoped", where=L.where(f),
+              detail="%d save / %d restore fragment(s) in the handler" % (
+                  len(enters), len(leaves)))
+    L.discarded_rule(repo, rep, rule, "chameleon.compiler.Compiler")
 
 
 def _position_reads(repo):
